@@ -606,7 +606,12 @@ func (d *Decoder) decodeLobTo(v reflect.Value) error {
 
 	case reflect.Array:
 		if v.Type().Elem().Kind() == reflect.Uint8 {
-			i := reflect.Copy(v, reflect.ValueOf(val))
+			// Element by element: reflect.Copy insists on identical element types and
+			// panics for an array of a defined byte type.
+			i := 0
+			for ; i < v.Len() && i < len(val); i++ {
+				v.Index(i).SetUint(uint64(val[i]))
+			}
 			for ; i < v.Len(); i++ {
 				v.Index(i).SetUint(0)
 			}
